@@ -19,9 +19,13 @@ use ckb_network::{
     async_trait, bytes::Bytes as P2pBytes, Behaviour, CKBProtocolContext, CKBProtocolHandler, Error, Peer, PeerIndex, ProtocolId, SupportProtocols, TargetSession,
 };
 use ckb_shared::block_status::BlockStatus;
-use ckb_sync::{SyncShared, Synchronizer};
+use ckb_sync::{Relayer, SyncShared, Synchronizer};
 use ckb_traits::HeaderFieldsProvider;
-use ckb_types::{core::HeaderView, packed, prelude::*};
+use ckb_types::{
+    core::{BlockView, HeaderView},
+    packed,
+    prelude::*,
+};
 use std::collections::{BTreeMap, BTreeSet};
 use std::future::Future;
 use std::pin::Pin;
@@ -30,6 +34,9 @@ use std::time::Duration;
 
 #[derive(Default)]
 pub struct PeerNet {
+    /// the context of the relay protocol (otherwise: sync)
+    relay: bool,
+    broadcasts: Mutex<u64>,
     sent: Mutex<Vec<(usize, P2pBytes)>>,
     banned: Mutex<Vec<(usize, String)>>,
     disconnected: Mutex<Vec<usize>>,
@@ -59,6 +66,7 @@ impl CKBProtocolContext for PeerNet {
         Ok(())
     }
     async fn async_quick_filter_broadcast(&self, _target: TargetSession, _data: P2pBytes) -> Result<(), Error> {
+        *self.broadcasts.lock().unwrap() += 1;
         Ok(())
     }
     async fn async_future_task(&self, _task: Pin<Box<dyn Future<Output = ()> + 'static + Send>>, _blocking: bool) -> Result<(), Error> {
@@ -134,7 +142,7 @@ impl CKBProtocolContext for PeerNet {
         self.banned.lock().unwrap().push((peer_index.value(), reason));
     }
     fn protocol_id(&self) -> ProtocolId {
-        SupportProtocols::Sync.protocol_id()
+        if self.relay { SupportProtocols::RelayV3.protocol_id() } else { SupportProtocols::Sync.protocol_id() }
     }
 }
 
@@ -174,6 +182,10 @@ pub struct PeerHdr {
     pub sync_shared: Arc<SyncShared>,
     sync: Synchronizer,
     nc: Arc<PeerNet>,
+    /// header_path 2: the relay protocol handler over the same `SyncShared`, with its own context
+    /// (its block verdict callbacks ban through it long after the message was handled)
+    relay: Relayer,
+    nc_relay: Arc<PeerNet>,
     /// index of the currently connected simulated peer (a banned peer is replaced by the next)
     pub peer: usize,
     /// per model block: the outcome of its announcements so far (absent = never processed)
@@ -196,8 +208,10 @@ fn poll_done<F: Future + ?Sized>(mut fut: Pin<Box<F>>) -> bool {
 
 impl PeerHdr {
     pub fn new(sync_shared: Arc<SyncShared>, chain: ckb_chain::ChainController) -> PeerHdr {
-        let sync = Synchronizer::new(chain, Arc::clone(&sync_shared));
-        let mut p = PeerHdr { sync_shared, sync, nc: Arc::new(PeerNet::default()), peer: 1, state: BTreeMap::new(), sent_once: BTreeSet::new(), too_new: BTreeSet::new() };
+        let sync = Synchronizer::new(chain.clone(), Arc::clone(&sync_shared));
+        let relay = Relayer::new(chain, Arc::clone(&sync_shared));
+        let nc_relay = Arc::new(PeerNet { relay: true, ..Default::default() });
+        let mut p = PeerHdr { sync_shared, sync, nc: Arc::new(PeerNet::default()), relay, nc_relay, peer: 1, state: BTreeMap::new(), sent_once: BTreeSet::new(), too_new: BTreeSet::new() };
         p.connect();
         p
     }
@@ -211,6 +225,9 @@ impl PeerHdr {
         let peer: PeerIndex = self.peer.into();
         let ok = poll_done(self.sync.connected(nc, peer, "3"));
         assert!(ok, "Synchronizer::connected stayed pending");
+        let ncr: Arc<dyn CKBProtocolContext + Sync> = self.nc_relay.clone();
+        let ok = poll_done(self.relay.connected(ncr, peer, "3"));
+        assert!(ok, "Relayer::connected stayed pending");
     }
 
     /// a banned peer is disconnected by the network layer; another one takes its place
@@ -219,6 +236,9 @@ impl PeerHdr {
         let peer: PeerIndex = self.peer.into();
         let ok = poll_done(self.sync.disconnected(nc, peer));
         assert!(ok, "Synchronizer::disconnected stayed pending");
+        let ncr: Arc<dyn CKBProtocolContext + Sync> = self.nc_relay.clone();
+        let ok = poll_done(self.relay.disconnected(ncr, peer));
+        assert!(ok, "Relayer::disconnected stayed pending");
         self.peer += 1;
         self.connect();
     }
@@ -248,6 +268,35 @@ impl PeerHdr {
                 .collect(),
             disconnects: disc.len(),
         })
+    }
+
+    /// One `CompactBlock` message for this block (every transaction prefilled: the reconstruction
+    /// needs no transaction pool) from the current peer, through `Relayer::received`.
+    /// Err = the handler did not complete. Bans that arrive later through the block's verdict
+    /// callback are not part of the answer: see `take_relay_bans`.
+    pub fn relay_compact(&mut self, block: &BlockView) -> Result<Announced, String> {
+        let all: std::collections::HashSet<usize> = (0..block.transactions().len()).collect();
+        let cb = packed::CompactBlock::build_from_block(block, &all);
+        let msg = packed::RelayMessage::new_builder().set(cb).build();
+        let data = P2pBytes::from(msg.as_slice().to_vec());
+        let nc: Arc<dyn CKBProtocolContext + Sync> = self.nc_relay.clone();
+        let peer: PeerIndex = self.peer.into();
+        let before = self.nc_relay.banned.lock().unwrap().len();
+        if !poll_done(self.relay.received(nc, peer, data)) {
+            return Err("Relayer::received stayed pending although every call of the mock context is ready".into());
+        }
+        // (what the node sends back leaves from tasks on the node's runtime: not looked at)
+        let banned: Vec<String> = self.nc_relay.banned.lock().unwrap().drain(before..).map(|(_, r)| r).collect();
+        Ok(Announced { banned, sent: Vec::new(), disconnects: 0 })
+    }
+
+    /// ban reasons recorded on the relay context outside of `relay_compact` (verdict callbacks)
+    pub fn take_relay_bans(&mut self) -> Vec<String> {
+        std::mem::take(&mut *self.nc_relay.banned.lock().unwrap()).into_iter().map(|(_, r)| r).collect()
+    }
+
+    pub fn relay_broadcasts(&self) -> u64 {
+        *self.nc_relay.broadcasts.lock().unwrap()
     }
 
     pub fn seen(&self, hash: &packed::Byte32) -> Seen {
